@@ -111,6 +111,61 @@ func (n *Nodis) ZAddGT(key string, member string, score float64) int64 {
 	return v
 }
 
+// zAddPairs is ZADD as the command layer needs it: every score-member pair of one command is decided and
+// written in ONE transaction, with Redis' option rules. NX: only members that are not there yet; XX: only
+// members that are there (and no key is created); GT / LT: a member that is there is updated only if the new
+// score is greater / less, a member that is not there is added (unless XX); an equal score changes nothing.
+// The reply is the number of members added, with CH the number of members added or updated.
+func (n *Nodis) zAddPairs(key string, nx, xx, gt, lt, ch bool, members []string, scores []float64) int64 {
+	var added, changed int64
+	if len(members) == 0 {
+		// no transaction: a key must not be created and left empty
+		return 0
+	}
+	_ = n.exec(func(tx *Tx) error {
+		var meta *metadata
+		if xx {
+			meta = tx.writeKey(key, nil)
+			if !meta.isOk() {
+				return nil
+			}
+		} else {
+			meta = tx.writeKey(key, n.newZSet)
+		}
+		set := meta.value.(*zset.SortedSet)
+		var ops []patch.Op
+		for i, member := range members {
+			score := scores[i]
+			old, err := set.ZScore(member)
+			if err == nil {
+				if nx || score == old || (gt && !(score > old)) || (lt && !(score < old)) {
+					continue
+				}
+				changed++
+			} else {
+				if xx {
+					continue
+				}
+				added++
+			}
+			set.ZAdd(member, score)
+			ops = append(ops, patch.Op{Type: patch.OpTypeZAdd, Data: &patch.OpZAdd{Key: key, Member: member, Score: score}})
+		}
+		if len(ops) == 0 {
+			return nil
+		}
+		n.signalModifiedKey(key, meta)
+		n.notify(func() []patch.Op {
+			return ops
+		})
+		return nil
+	})
+	if ch {
+		return added + changed
+	}
+	return added
+}
+
 func (n *Nodis) ZCard(key string) int64 {
 	var v int64
 	_ = n.exec(func(tx *Tx) error {
